@@ -141,4 +141,48 @@ def cdecOp (args : List String) : String :=
     showObs (kind == "unary" || kind == "client") (clientDecode decStatus cfg stext { status := status, header := hdr, body := body, trailer := trl })
   | _, _, _, _, _, _, _, _, _ => "bad-op"
 
+/-! ### handler side: arbitrary requests -/
+
+def jsonTable (d : Bytes) : Bool := d == [123, 125]                          -- "{}"
+def trailerTable (d : Bytes) : Bool := d == [97, 58, 32, 98, 13, 10]          -- "a: b\r\n"
+def tableParsers : SpecialParsers := { jsonOK := jsonTable, trailerOK := trailerTable }
+
+def parseTail' (s : String) : Option RErr :=
+  match s.splitOn ":" with
+  | ["eof"] => some .eof
+  | ["ueof"] => some .unexpectedEOF
+  | ["err"] => some .other
+  | _ => none
+
+def showEnd : HEnd → String
+  | .eof => "eof"
+  | .fail c => toString c
+
+def hreqOp (args : List String) : String :=
+  match kv' args "proto", kv' args "kind", (kv' args "max").bind String.toNat?, (kv' args "sent").bind hexArg',
+        (kv' args "tmo").bind hexArg', (kv' args "flat").bind hexArg', (kv' args "tail").bind parseTail' with
+  | some proto, some kind, some max, some sent, some tmo, some flat, some tail =>
+    let p := parseProto' proto
+    let reg : List Bytes := [Gen.compressionGzip, "rle".toUTF8.toList]
+    match preCheck p reg sent [] tmo with
+    | .reject code => if kind == "unary" then s!"norun:{code}" else s!"pre=reject:{code}"
+    | .run hasPool =>
+      let cfg : ReaderCfg Bytes := { codec := rawCodec, pool := if hasPool then some rleCompressor else none, max := max }
+      let src : Src := { flat := flat, tail := tail }
+      if kind == "unary" && proto == "connect" then
+        match handlerRecvUnaryConnect cfg src with
+        | (some v, _) => s!"pre=run recv={hexOut' v} end=eof"
+        | (none, e) => s!"norun:{showEnd e}"
+      else if kind == "unary" then
+        -- one Receive: the first message only
+        match handlerRecvStream p tableParsers cfg src with
+        | (v :: _, _) => s!"pre=run recv={hexOut' v} end=eof"
+        | ([], .eof) => s!"norun:{codeUnknown}"   -- NewError(CodeUnknown, io.EOF) goes on the wire
+        | ([], e) => s!"norun:{showEnd e}"
+      else
+        let r := handlerRecvStream p tableParsers cfg src
+        let msgs := if r.1.isEmpty then "none" else ",".intercalate (r.1.map hexOut')
+        s!"pre=run recv={msgs} end={showEnd r.2}"
+  | _, _, _, _, _, _, _ => "bad-op"
+
 end ProtoOps
